@@ -95,7 +95,7 @@ def run(res, tier):
                     if slack < -1e-5 * max(1.0, float(np.max(np.abs(P)))):
                         info = dict(what='simulated trajectory violates the dissipation inequality with the returned '
                                          'storage matrix', slack=slack)
-                k = lmi.log_monotone(reg.objective_log_)
+                k = lmi.log_defect(reg, X, nu)
                 if info is None and k is not None:
                     info = dict(what='logged objective increases between iterations', at=k)
             if info:
